@@ -328,17 +328,17 @@ namespace bluetoe {
                     if ( procedure_in_progress_ )
                         return std::make_pair( error_codes::procedure_already_in_progress, false );
 
-                    procedure_in_progress_  = true;
-                    current_opcode_         = *value;
+                    const std::uint8_t opcode = *value;
                     ++value;
 
-                    switch ( current_opcode_ )
+                    switch ( opcode )
                     {
                     case set_cumulative_value_opcode:
                         {
                             if ( write_size != 1 + 4 )
                                 return std::make_pair( error_codes::invalid_pdu, false );
 
+                            start_procedure( opcode );
                             handler.set_cumulative_wheel_revolutions( bluetoe::details::read_32bit( value ) );
                             return std::make_pair( error_codes::success, false );
                         }
@@ -347,6 +347,7 @@ namespace bluetoe {
                             if ( write_size != 1 )
                                 return std::make_pair( error_codes::invalid_pdu, false );
 
+                            start_procedure( opcode );
                             return std::make_pair( error_codes::success, true );
                         }
                     case update_sensor_location_opcode:
@@ -354,17 +355,26 @@ namespace bluetoe {
                             if ( write_size != 1 + 1 )
                                 return std::make_pair( error_codes::invalid_pdu, false );
 
+                            start_procedure( opcode );
                             this->set_sensor_position( *value);
 
                             return std::make_pair( error_codes::success, true );
                         }
                     default:
                         // according to the spec with have to response with success and then indicate an error
+                        start_procedure( opcode );
                         return std::make_pair( error_codes::success, true );
                     }
 
                 }
             private:
+                // only an accepted procedure is in progress; a rejected write must not block the control point
+                void start_procedure( std::uint8_t opcode )
+                {
+                    procedure_in_progress_  = true;
+                    current_opcode_         = opcode;
+                }
+
                 std::uint8_t current_opcode_;
                 bool         procedure_in_progress_;
             };
